@@ -34,7 +34,8 @@ ArithProgs ==
   \cup { Bin("==", Bin("-", Bin("+", T(t), Du(d)), Du(d)), T(t)) : t \in ArithTs, d \in Durs }
   \cup { Bin(o, T(a), T(b)) : o \in {"<", "=="}, a \in ArithTs, b \in ArithTs }
 Num2(n) == IF n < 10 THEN <<48 + n>> ELSE Pad(n, 2)
-Comp == { <<49>>, <<48>>, <<50, 53>>, <<49, 46, 53>>, <<48, 46, 50, 53>>, <<46, 53>> }
+Comp == { <<49>>, <<48>>, <<50, 53>>, <<49, 46, 53>>, <<48, 46, 50, 53>>, <<46, 53>>,
+          <<50, 46, 51>>, <<52, 46, 51, 53>>, <<51, 46, 55>> }       \* 2.3  4.35  3.7: decimal fractions that binary floating point does not hold exactly
 Units == { <<104>>, <<109>>, <<115>>, <<109, 115>>, <<117, 115>>, <<110, 115>> }
 Texts == { sg \o c \o u : sg \in {<<>>, <<45>>, <<43>>}, c \in Comp, u \in Units }
          \cup { c1 \o <<104>> \o c2 \o <<109>> \o c3 \o <<115>> : c1 \in {<<49>>, <<50, 53>>}, c2 \in {<<48>>, <<53, 57>>, <<49, 46, 53>>}, c3 \in {<<48>>, <<53, 57>>, <<48, 46, 50, 53>>} }
